@@ -11,6 +11,8 @@ CONSTANTS
   Addrs = {"none"}
   Grows = {1}
   Lates = FALSE
+  AddAligns = {}
+  OnlyTiled = FALSE
   NopKinds = {"1", "4"}
   VariantSet = "align"
   Rotate = 1
